@@ -202,6 +202,12 @@ def setHeartBeat (w : W) (o : Oid) (to : Nat) : W :=
 
 /-! ## error_handler (error_context.c) -/
 
+/-- `if (current_heart_beat) { set_heart_beat (current_heart_beat, 0); ...; current_heart_beat = 0; }` -/
+def hbOff (w : W) : W :=
+  match w.curHb with
+  | some o => { setHeartBeat w o 0 with curHb := none }
+  | none => w
+
 /-- mudlib_error_handler + the verification master's error_handler(): reports, then behaves per `meh`.
     Returns `true` when the handler itself raised (control has left through a nested error_handler/longjmp).
     `fuel` bounds the re-entries of the `recurse` behaviour (the LPC handler stops after two re-entries). -/
@@ -216,9 +222,7 @@ def callMasterHandler : Nat → W → String → W × Bool
       --   in_error = 1; "error in mudlib error handler"; in_mudlib_error_handler = 0; heart beat; in_error = 0; longjmp
       let w := { w with inError := true }
       let w := { w with inMeh := false }
-      let w := match w.curHb with
-        | some o => { setHeartBeat w o 0 with curHb := none }
-        | none => w
+      let w := hbOff w
       ({ w with inError := false }, true)
     | .recurse =>
       if w.mehDepth < 2 then
@@ -231,9 +235,7 @@ def callMasterHandler : Nat → W → String → W × Bool
         let (w, raised) := callMasterHandler fuel w "mehagain"
         if raised then (w, true) else
         let w := { w with inError := true, inMeh := false }
-        let w := match w.curHb with
-          | some o => { setHeartBeat w o 0 with curHb := none }
-          | none => w
+        let w := hbOff w
         ({ w with inError := false }, true)
       else
         ({ w with mehDepth := 0 }, false)
@@ -247,18 +249,14 @@ def errorHandler (w : W) (msg : String) : W :=
     let w := { w with inError := true }
     if w.inMeh then
       let w := { w with inMeh := false }
-      let w := match w.curHb with
-        | some o => { setHeartBeat w o 0 with curHb := none }
-        | none => w
+      let w := hbOff w
       { w with inError := false }
     else
       let w := { w with inMeh := true, inError := false }
       let (w, raised) := callMasterHandler 3 w msg
       if raised then w else
       let w := { w with inError := true, inMeh := false }
-      let w := match w.curHb with
-        | some o => { setHeartBeat w o 0 with curHb := none }
-        | none => w
+      let w := hbOff w
       { w with inError := false }
 
 /-- error_handler() for an error inside catch() (LOG_CATCHES): reported with caught = 1, then longjmp to the catch -/
